@@ -262,16 +262,43 @@ func (b *c02TreeB) walk(v reflect.Value, cur *c02Scope, flag bool) {
 	}
 }
 
+type c02WithVisitor struct{ global *pjs.Scope }
+
+func (v c02WithVisitor) Enter(n pjs.INode) pjs.IVisitor {
+	var scope *pjs.Scope
+	switch n := n.(type) {
+	case *pjs.FuncDecl:
+		scope = &n.Body.Scope
+	case *pjs.MethodDecl:
+		scope = &n.Body.Scope
+	case *pjs.ArrowFunc:
+		scope = &n.Body.Scope
+	}
+	if scope != nil && scope.HasWith {
+		for s := scope.Parent; s != nil && !s.Func.HasWith; s = s.Func.Parent {
+			s.Func.HasWith = true
+			if s.Func.Parent == nil {
+				v.global.HasWith = true
+			}
+		}
+	}
+	return v
+}
+func (v c02WithVisitor) Exit(n pjs.INode) {}
+
 // c02Tree parses src with the dependency parser and returns the `spec.c02.tree` request.
 func c02Tree(src string, keep bool, cfg int) (line string, nscopes, nvars int, hoistShadow bool, err error) {
 	ast, perr := pjs.Parse(parse.NewInputString(src), pjs.Options{WhileToFor: true})
 	if perr != nil {
 		return "", 0, 0, false, perr
 	}
+	// as Minify does (withVisitor, fix f7bc618): every function scope and the global scope enclosing a function with
+	// `with` count as HasWith; the scopes point to the global scope as it was before parse/v2 copied it into the AST
+	pjs.Walk(c02WithVisitor{&ast.BlockStmt.Scope}, ast)
 	b := &c02TreeB{ids: map[*pjs.Var]int{}, keep: keep}
 	root := b.open(&ast.BlockStmt.Scope, nil, false, false)
 	root.isFunc = true
-	b.walk(reflect.ValueOf(ast.BlockStmt.List), root, !keep)
+	b.walk(reflect.ValueOf(ast.BlockStmt.List), root, !keep && !ast.BlockStmt.Scope.HasWith)
 	gs := make([][][]byte, len(b.scopes))
 	for i, s := range b.scopes {
 		var items []string
@@ -1440,6 +1467,8 @@ func c02RunAll(c *Ctx, cases []*c02Case) error {
 			c.R.Add(h.Finding{Stage: stT.Name, Kind: "diff", What: "scope tree of parse/v2/js violates the assumed contract wfForest (undeclared ⊉ free variables, or a variable declared twice / referenced across branches)", Input: cs.src})
 		} else if !in && cs.class != "trigger" && cs.class != "corpus" {
 			c.R.Add(h.Finding{Stage: stT.Name, Kind: "diff", What: "input names inconsistent with the parser's resolution in an un-renamed scope (inputOk false)", Input: cs.src})
+		} else if !fl {
+			c.R.Add(h.Finding{Stage: stT.Name, Kind: "diff", What: "rename flags as computed by js.go switch renaming off below a renamed scope (flagsOk false; flags_ok_js says this cannot happen)", Input: cs.src})
 		} else if wf && fl && in && !cf {
 			c.R.Add(h.Finding{Stage: stT.Name, Kind: "diff", What: "model traversal not capture-free although the hypotheses of capture_free_partial hold (theorem/driver mismatch)", Input: cs.src})
 		}
@@ -1467,19 +1496,8 @@ func c02RunAll(c *Ctx, cases []*c02Case) error {
 		cs := cases[nc.ID]
 		tr := traces[nc.ID]
 		known := ""
-		switch {
-		case cs.trig.elseFlatten:
-			known = "K-C02-1"
-		case !cs.flagsOk:
-			known = "K-C02-2"
-		case cs.trig.topLevelWith:
-			known = "K-C02-4"
-		case cs.hoistShadow:
-			known = "K-C02-5"
-		case cs.trig.argUseShadow:
-			known = "K-C02-6"
-		case cs.trig.letOnlyBlock:
-			known = "K-C02-7"
+		if cs.trig.argUseShadow { // the only open findings: scope analysis of the dependency
+			known = "K-C02-6/8"
 		}
 		stP.Tag("class=" + cs.class)
 		if known != "" {
